@@ -157,6 +157,21 @@ def events_for(pp, rnd, A, tag):
         o, r = call(lambda: (bool(x == y), bool(y == x), bool(x == x)))
         add("eq", out=o, B=B, what=what, ab=r[0] if o == "ret" else False, ba=r[1] if o == "ret" else False,
             aa=r[2] if o == "ret" else False)
+    # same length, same distinct values, different multiplicities at one position: [x, x, y] versus [x, y, y]
+    slot = rnd.choice(["nterm", "cterm", "labile", "unknown", "internal"])
+    x_, y_ = {"v": "s:Phospho", "m": 1}, {"v": "s:Acetyl", "m": 1}
+    A2, B2 = copy.deepcopy(A), copy.deepcopy(A)
+    if slot == "internal":
+        A2["internal"] = [e for e in A2["internal"] if e["i"] != 0] + [{"i": 0, "mods": [x_, x_, y_]}]
+        B2["internal"] = [e for e in B2["internal"] if e["i"] != 0] + [{"i": 0, "mods": [x_, y_, y_]}]
+        A2["internal"].sort(key=lambda e: e["i"])
+        B2["internal"].sort(key=lambda e: e["i"])
+    else:
+        A2[slot], B2[slot] = [x_, x_, y_], [x_, y_, y_]
+    xo, yo = anngen.build(pp, A2), anngen.build(pp, B2)
+    o, r = call(lambda: (bool(xo == yo), bool(yo == xo), bool(xo == xo)))
+    evs.append({"op": "eq", "tid": f"{tag}.eqmult.{len(evs)}", "k": "c20", "A": A2, "out": o, "B": B2, "what": "multiplicity",
+                "ab": r[0] if o == "ret" else False, "ba": r[1] if o == "ret" else False, "aa": r[2] if o == "ret" else False})
     return evs
 
 
